@@ -177,6 +177,13 @@ Definition show_kex (k : bytes * list (list bytes) * Z * Z) : string :=
   hex_of_bytes cookie ++ " " ++ String.concat "|" (map show_names ls) ++ " " ++ string_of_Z f ++ " " ++ string_of_Z res.
 
 
+(* certificate options: name:data|name:_ with hex fields, "-" for none *)
+Definition cert_options_of_string (s : string) : list (bytes * option bytes) :=
+  if String.eqb s "-" then []
+  else map (fun t => match split_on ":" t "" with
+                     | [n; d] => (bytes_of_hex n, if String.eqb d "_" then None else Some (hex_or_empty d))
+                     | _ => ([], None)
+                     end) (split_on "|" s "").
 (* ---- text fields ---- *)
 Definition show_comp (c : comp) : string :=
   hex_of_bytes (fst c) ++ ":" ++ match snd c with None => "-" | Some v => "v" ++ hex_of_bytes v end.
@@ -232,6 +239,22 @@ Definition run_words (ws : list string) : string :=
       "OK " ++ hex_of_bytes (enc_openvpn_control (z_of_string op) (z_of_string sess) (zlist_of_string acks) (z_of_string remote) (z_of_string pid) (hex_or_empty h))
   | ["ovpntcp"; h] => show_opt (enc_openvpn_tcp (hex_or_empty h))
   | ["pgssl"] => "OK " ++ hex_of_bytes enc_pg_ssl_request
+  | ["bannerenc"; proto; sw; c] =>
+      show_opt (enc_banner (hex_or_empty proto) (hex_or_empty sw) (if String.eqb c "_" then None else Some (hex_or_empty c)))
+  | ["bannerdec"; h] =>
+      match dec_banner (hex_or_empty h) with
+      | Some (proto, sw, c, n) =>
+          match enc_banner proto sw c with
+          | Some b => "OK " ++ hex_of_bytes b ++ " n=" ++ string_of_Z n
+          | None => "NONE"
+          end
+      | None => "NONE"
+      end
+  | ["certed"; nonce; pk; serial; ctype; keyid; principals; after; before; crit; ext; reserved; sigkey; sigdata] =>
+      "OK " ++ hex_of_bytes (enc_cert_ed25519 (hex_or_empty nonce) (hex_or_empty pk) (z_of_string serial) (z_of_string ctype) (hex_or_empty keyid)
+                                              (hexlist_of_string principals) (z_of_string after) (z_of_string before)
+                                              (cert_options_of_string crit) (cert_options_of_string ext) (hex_or_empty reserved)
+                                              (hex_or_empty sigkey) (hex_or_empty sigdata))
   | ["sshpad"; l] => "OK " ++ string_of_Z (padding_length (z_of_string l)) ++ " " ++ string_of_Z (packet_length (z_of_string l))
   | ["mpintspec"; z] => "OK " ++ hex_of_bytes (enc_mpint (z_of_string z))
   | ["kexenc"; cookie; lists; f; res] =>
